@@ -43,7 +43,8 @@ Fixpoint hexpr_eqb (a b : hexpr) : bool :=
 Definition stmt_eqb (a b : stmt) : bool :=
   match a, b with
   | SV x, SV y | SE x, SE y | SIn x, SIn y | SOut x, SOut y | SBoth x, SBoth y | SInE x, SInE y | SOutE x, SOutE y
-  | SBothE x, SBothE y | SHasLabel x, SHasLabel y | SHasId x, SHasId y | SHasKey x, SHasKey y | SSelect x, SSelect y
+  | SBothE x, SBothE y | SInNull x, SInNull y | SOutNull x, SOutNull y | SInENull x, SInENull y | SOutENull x, SOutENull y
+  | SHasLabel x, SHasLabel y | SHasId x, SHasId y | SHasKey x, SHasKey y | SSelect x, SSelect y
   | SFields x, SFields y | SDistinct x, SDistinct y => strs_eqb x y
   | SHas x, SHas y => hexpr_eqb x y
   | SAs x, SAs y | SUnwind x, SUnwind y => String.eqb x y
